@@ -442,7 +442,16 @@ def check_arrays(ctx, res, arrays, kind, bucket, beyond=0):
                         nt += 1
         # tie: answers and exception classes must equal the model's; the sparse TABLE is compared too, but a
         # difference of the table alone (another layout, tuples for lists, ...) is a note, not a broken tie
-        if ("err" in io) != ("err" in mo) or io.get("err") != mo.get("err") or io.get("results") != mo.get("results"):
+        # Ranges reaching outside the array are outside the property: whether the call raises is compared, the
+        # exception CLASS is not (IndexError from a short row / TypeError from a None padding cell depends on the
+        # table layout: one more padding cell per row changes it and nothing else).
+        def norm(rs):
+            if not isinstance(rs, list):
+                return rs
+            return [({"err": "*"} if ("err" in r and (a > n or b > n)) else r) for (a, b), r in zip(qs, rs)]
+
+        if ("err" in io) != ("err" in mo) or io.get("err") != mo.get("err") \
+                or norm(io.get("results")) != norm(mo.get("results")):
             res.tie_broken("RangeMinQuery: answers and exception classes",
                            {"kind": "rmq", "elem": kind, "data": enc, "beyond": beyond}, mo, io)
         elif io.get("table") != mo.get("table"):
